@@ -1587,6 +1587,10 @@ def classify_recursion(f, call, idx=None):
                         if isinstance(t, ast.Compare) and len(t.ops) == 1 and isinstance(t.ops[0], (ast.GtE, ast.Gt)) and \
                                 ast.unparse(t.left) == f"self.{grown}" and f"self.{grown}" not in ast.unparse(t.comparators[0]):
                             bounded = True
+                        # the same comparison read from the other side: <bound> <= self.size
+                        if isinstance(t, ast.Compare) and len(t.ops) == 1 and isinstance(t.ops[0], (ast.LtE, ast.Lt)) and \
+                                ast.unparse(t.comparators[0]) == f"self.{grown}" and f"self.{grown}" not in ast.unparse(t.left):
+                            bounded = True
         if bounded:
             return "ok", f"bounded variant: self.{grown} strictly grows before the call and `self.{grown} >= <bound>` raises first"
         if grown is not None and block is not None and idx is not None and f.cls is not None:
@@ -1932,6 +1936,12 @@ def joins(rep, idx):
                         # the tabled statement moved to another function of the same file (the tabled function no longer mentions the name)
                         k = [k for k in JOIN_TABLE if k[1] == a.id and k[0].split("::")[0] == f.site.split("::")[0]][0]
                         rep.ok("C19.6", f.site, what, "table (statement moved within the file): " + JOIN_TABLE[k], nontrivial=False)
+                    elif any(isinstance(b_, ast.Assign) and len(b_.targets) == 1 and isinstance(b_.targets[0], ast.Name) and b_.targets[0].id == a.id and
+                             isinstance(b_.value, ast.Call) and any(isinstance(x_, ast.Attribute) and x_.attr == "__annotations__" for x_ in b_.value.args)
+                             for b_ in ast.walk(f.node)) and \
+                            sum(1 for b_ in ast.walk(f.node) if isinstance(b_, ast.Name) and b_.id == a.id and isinstance(b_.ctx, ast.Store)) == 1:
+                        rep.ok("C19.6", f.site, what, f"`{a.id}` is derived from __annotations__ by a filter that keeps the keys: identifiers, always str",
+                               nontrivial=False)
                     elif _list_of_strings(f, a.id):
                         rep.ok("C19.6", f.site, what, f"`{a.id}` is a local list that only ever receives f-strings / str() values", nontrivial=False)
                     else:
